@@ -20,8 +20,7 @@ func closeWrite(c net.Conn) error {
 }
 
 // tunnel copies data between the client connection in and the upstream
-// connection out until both directions are done. The client's data is
-// read from inr which may be in itself or a buffered reader on top of it.
+// connection out until both directions are done.
 //
 // When one side ends its stream the end is passed on by closing only
 // the writing side of the other connection (TCP half-close). The
@@ -30,7 +29,7 @@ func closeWrite(c net.Conn) error {
 // still gets the response. If a direction fails, or the end of a stream
 // cannot be passed on since the connection does not support half-close,
 // the tunnel ends right away and the caller closes both connections.
-func tunnel(in net.Conn, inr io.Reader, out net.Conn, rx, tx gkm.Counter) error {
+func tunnel(in, out net.Conn, rx, tx gkm.Counter) error {
 	errc := make(chan error, 2)
 	cp := func(dst net.Conn, src io.Reader, c gkm.Counter) {
 		err := copyBuffer(dst, src, c)
@@ -41,7 +40,7 @@ func tunnel(in net.Conn, inr io.Reader, out net.Conn, rx, tx gkm.Counter) error 
 	}
 
 	go cp(in, out, rx)
-	go cp(out, inr, tx)
+	go cp(out, in, tx)
 	err := <-errc
 	if err == nil {
 		err = <-errc
